@@ -76,8 +76,19 @@ def _ends_known_not_gap(find: Func, p, ctor: ast.Call) -> bool:
         base, lo, hi = rows.value, rows.slice.lower, rows.slice.upper
     elif isinstance(rows, ast.Attribute | ast.Name):
         base, lo, hi = rows, None, None
+    elif isinstance(rows, ast.List | ast.Tuple) and rows.elts and not any(isinstance(x, ast.Starred) for x in rows.elts):
+        # rows=[row] / [a, b]: a literal list of rows, each of which the path must have tested
+        ends = {norm(resolve_on_path(p, i_ret, rows.elts[0])), norm(resolve_on_path(p, i_ret, rows.elts[-1]))}
+        tested = set()
+        for i, e in enumerate(p.events):
+            if e.kind != "cond":
+                continue
+            for t, v in cond_facts(e.node, e.val):
+                if v is False and isinstance(t, ast.Call) and dotted(t.func) == "isinstance" and len(t.args) == 2 and dotted(t.args[1]) == "Gap":
+                    tested.add(norm(resolve_on_path(p, i, t.args[0])))
+        return ends <= tested
     else:
-        return False
+        raise AnalysisError(f"{find.short}: a result is built on a path that bypasses the terminal-gap walks with rows '{norm(rows)[:50]}': whether its first and last row can be gaps is not decided")
     bt = norm(base)
 
     def lin(e):
@@ -740,7 +751,13 @@ def _r345(repo, L, ia, find: Func):
     if first_v is None or last_v is None:
         raise AnalysisError("first/last index variables not identified")
     last_loop = max(body.index(l) for l in loops)
-    # the top-level statement that holds the construction (the return itself, or an if/else whose branches each return one)
+    # the top-level statement that holds the construction (the return itself, or an if/else whose branches each return one); with
+    # several constructions (a fast path before the search) the one after the search loops is the general result
+    cands_ = [n for n in walk_shallow(find.node) if isinstance(n, ast.Return) and isinstance(n.value, ast.Call) and dotted(n.value.func) == "OverlapResult"]
+    for c_ in cands_:
+        t_ = next((b_ for b_ in body if any(x is c_ for x in ast.walk(b_))), None)
+        if t_ is not None and body.index(t_) > max(body.index(l) for l in loops):
+            ret = c_
     top_ = next((b_ for b_ in body if any(x is ret for x in ast.walk(b_))), None)
     tail = body[last_loop + 1: body.index(top_) + 1] if top_ is not None and body.index(top_) > last_loop else None
     if tail is None:
